@@ -342,8 +342,10 @@ class HybridClass(metaclass=MetaHybridClass):
         self._xobject = self._XoStruct(**xo_kwargs)
 
         # Handle dressed inputs
+        # (through the attribute of the field, also when the xo name of a
+        # renamed field was used)
         for kk, vv in dressed_kwargs.items():
-            setattr(self, kk, vv)
+            setattr(self, self._rename.get(kk, kk), vv)
 
         # dress what can be dressed
         # (for example in case object is initialized from dict)
